@@ -426,6 +426,11 @@ func genTempl(t *rapid.T) TemplCase {
 		}
 		c.Procs = append(c.Procs, p)
 	}
+	// a process that is named like a replica of another one (both replicated, so all names stay
+	// distinct): svc0 x 3 and svc0-0 x 2 load as svc0-0, svc0-1, svc0-2, svc0-0-0, svc0-0-1
+	if c.Procs[0].Replicas >= 2 && pbt.Pct(t, 25) {
+		c.Procs = append(c.Procs, TProc{Name: c.Procs[0].Name + "-0", Replicas: pbt.Pick(t, []int{2, 3}), Command: "run " + pbt.Pick(t, tmplPieces)})
+	}
 	return c
 }
 
